@@ -90,8 +90,10 @@ func (g gInfo) parkedBySimulator() bool {
 	return false
 }
 
+// running: executing, or about to (a goroutine that sleeps is going to wake up by
+// itself: a loop that sleeps between attempts is a loop).
 func (g gInfo) running() bool {
-	return strings.HasPrefix(g.state, "running") || strings.HasPrefix(g.state, "runnable")
+	return strings.HasPrefix(g.state, "running") || strings.HasPrefix(g.state, "runnable") || strings.HasPrefix(g.state, "sleep")
 }
 
 // blockedOutside describes the blocking operation of a goroutine of the simulation
